@@ -300,6 +300,11 @@ func (e *modelEnv) tree(v Value, initial bool, depth int) interface{} {
 		}
 		for i, o := range w.Job.opaque {
 			if w.identical(x.T, o.T) {
+				if pa, ok := x.V.(Ptr); ok {
+					if pb, ok := o.V.(Ptr); ok && pa != pb {
+						continue // typed nil pointer vs. non-nil pointer prototype
+					}
+				}
 				return map[string]interface{}{"k": "opaque", "i": i}
 			}
 		}
